@@ -74,6 +74,8 @@ def _prepare(c):
     c.assume("relay allowance modelled exactly (floor(BaseRelaysPerPOKT/100 * tokens / 10^6) + StabilityAdjustment) when the participation "
              "rate is off and BaseRelaysPerPOKT is a multiple of 100; otherwise bound from the log and only its relation to stake / "
              "bump / transfer is judged")
+    c.assume("chains run past the codec (amino -> proto) upgrade height K except variant 5 / scenario legacy-restake (K = 9, every feature "
+             "at K+1): there blocks below K carry amino transactions, and the state conversion in BeginBlock K is part of the model")
     c.assume("no scenario of this module unstakes NODES, so at EndBlock only matured applications and the application pool move coins")
     init = os.path.join(c.scratch, "apps-init.json")
     if not os.path.exists(init):
@@ -129,6 +131,8 @@ def _record(c, name, mode, n=0, blocks=0):
     rep = vf.run_harness(BIN, args, env={"VERIF_SEED": c.seed}, timeout=3000)
     if rep.get("steps", 0) == 0:
         raise vf.MachineryError("trace driver recorded nothing (%s)" % mode)
+    if mode == "scripted" and not rep.get("op_counts", {}).get("legacy-record-present"):
+        raise vf.MachineryError("the legacy-restake scenario did not produce a pre-upgrade Unstaked record (dead scenario)")
     c.add("impl_steps", rep["steps"])
     oc = c.cov.setdefault("trace_result_classes", {})
     for k, v in rep.get("op_counts", {}).items():
@@ -223,12 +227,14 @@ def common(c):
     init = _prepare(c)
     # ---- 1. design model: transition cover + full product at depth 1 + deep simulation, all replayed
     stages = [("MCChainApps_cover_q.cfg", "transition cover", None), ("MCChainApps_rich.cfg", "amount x chain-list product on every variant", None),
+              ("MCChainApps_legacy_q.cfg", "transition cover across the codec upgrade height (legacy Unstaked record, amino-era blocks)", None),
               ("MCChainApps_sim.cfg", "simulated 10-block behaviours (every successor of the 9th block)", dict(num=1, depth=12, workers=4))]
     if thorough:
         stages = [("MCChainApps_cover_q.cfg", "transition cover, 2 blocks, variants 1-3", None),
                   ("MCChainApps_cover_t.cfg", "transition cover, 3 blocks, variants 1 and 3", None),
                   ("MCChainApps_rich.cfg", "amount x chain-list product on every variant", None),
                   ("MCChainApps_rich_t.cfg", "amount x chain-list product, two blocks, variant 3", None),
+                  ("MCChainApps_legacy_t.cfg", "transition cover across the codec upgrade height, 3 blocks", None),
                   ("MCChainApps_sim_t.cfg", "simulated 16-block behaviours (every successor of the 15th block)", dict(num=3, depth=18, workers=8))]
     for cfg, what, sim in stages:
         _model_stage(c, pid, init, cfg, what, simulate=sim)
